@@ -28,13 +28,13 @@ type Opts struct {
 	OmitIns bool   `json:"omitins,omitempty"`
 	OutDir  string `json:"outdir,omitempty"` // "stdout" or a directory
 	// variants / sam variants
-	Stdin      bool    `json:"stdin,omitempty"`
-	RefID      string  `json:"refid,omitempty"`
-	RefFromFile bool   `json:"reffromfile,omitempty"`
-	AnnoSuffix string  `json:"annosuffix,omitempty"`
-	Aggregate  bool    `json:"aggregate,omitempty"`
-	Threshold  float64 `json:"threshold,omitempty"`
-	AppendSNP  bool    `json:"appendsnp,omitempty"`
+	Stdin       bool    `json:"stdin,omitempty"`
+	RefID       string  `json:"refid,omitempty"`
+	RefFromFile bool    `json:"reffromfile,omitempty"`
+	AnnoSuffix  string  `json:"annosuffix,omitempty"`
+	Aggregate   bool    `json:"aggregate,omitempty"`
+	Threshold   float64 `json:"threshold,omitempty"`
+	AppendSNP   bool    `json:"appendsnp,omitempty"`
 	// snps
 	HardGaps bool `json:"hardgaps,omitempty"`
 	// closest
@@ -43,22 +43,22 @@ type Opts struct {
 	MaxDist float64 `json:"maxdist,omitempty"`
 	Table   bool    `json:"table,omitempty"`
 	// updown topranking
-	QType       string   `json:"qtype,omitempty"`
-	TType       string   `json:"ttype,omitempty"`
-	Ignore      []string `json:"ignore,omitempty"`
-	SizeTotal   int      `json:"sizetotal,omitempty"`
-	SizeUp      int      `json:"sizeup,omitempty"`
-	SizeDown    int      `json:"sizedown,omitempty"`
-	SizeSide    int      `json:"sizeside,omitempty"`
-	SizeSame    int      `json:"sizesame,omitempty"`
-	DistAll     int      `json:"distall,omitempty"`
-	DistUp      int      `json:"distup,omitempty"`
-	DistDown    int      `json:"distdown,omitempty"`
-	DistSide    int      `json:"distside,omitempty"`
-	ThreshPair  float32  `json:"threshpair,omitempty"`
-	ThreshTarg  int      `json:"threshtarg,omitempty"`
-	NoFill      bool     `json:"nofill,omitempty"`
-	DistPush    int      `json:"distpush,omitempty"`
+	QType      string   `json:"qtype,omitempty"`
+	TType      string   `json:"ttype,omitempty"`
+	Ignore     []string `json:"ignore,omitempty"`
+	SizeTotal  int      `json:"sizetotal,omitempty"`
+	SizeUp     int      `json:"sizeup,omitempty"`
+	SizeDown   int      `json:"sizedown,omitempty"`
+	SizeSide   int      `json:"sizeside,omitempty"`
+	SizeSame   int      `json:"sizesame,omitempty"`
+	DistAll    int      `json:"distall,omitempty"`
+	DistUp     int      `json:"distup,omitempty"`
+	DistDown   int      `json:"distdown,omitempty"`
+	DistSide   int      `json:"distside,omitempty"`
+	ThreshPair float32  `json:"threshpair,omitempty"`
+	ThreshTarg int      `json:"threshtarg,omitempty"`
+	NoFill     bool     `json:"nofill,omitempty"`
+	DistPush   int      `json:"distpush,omitempty"`
 	// cli: the real cobra command line (files are looked up in Case.Files)
 	Args []string `json:"args,omitempty"`
 }
@@ -73,30 +73,30 @@ type Case struct {
 // RunCfg is everything about one execution that is not the command's input:
 // schedule source, knobs, read chunking, faults.
 type RunCfg struct {
-	Seed    uint64         `json:"seed"`
-	Strat   simrt.Strategy `json:"strat"`
-	NumCPU  int            `json:"numcpu"`
-	MapMode int            `json:"mapmode"`
-	Chunk   int            `json:"chunk"`
-	Threads int            `json:"threads"` // 0: keep Case.Opts.Threads
-	Faults  []Fault        `json:"faults,omitempty"`
-	Replay  []int32        `json:"replay,omitempty"`
-	Arity   []int32        `json:"arity,omitempty"`
-	Explicit bool          `json:"explicit,omitempty"` // Replay is authoritative (even if empty)
+	Seed     uint64         `json:"seed"`
+	Strat    simrt.Strategy `json:"strat"`
+	NumCPU   int            `json:"numcpu"`
+	MapMode  int            `json:"mapmode"`
+	Chunk    int            `json:"chunk"`
+	Threads  int            `json:"threads"` // 0: keep Case.Opts.Threads
+	Faults   []Fault        `json:"faults,omitempty"`
+	Replay   []int32        `json:"replay,omitempty"`
+	Arity    []int32        `json:"arity,omitempty"`
+	Explicit bool           `json:"explicit,omitempty"` // Replay is authoritative (even if empty)
 }
 
 // Result is what one simulated execution produced.
 type Result struct {
-	Out      simrt.Outcome
-	Err      error
-	Stdout   []byte
-	Stderr   []byte
-	Files    map[string][]byte
-	FileOrder []string
-	Writes   []WriteRec
-	Fired    map[string]int
+	Out                  simrt.Outcome
+	Err                  error
+	Stdout               []byte
+	Stderr               []byte
+	Files                map[string][]byte
+	FileOrder            []string
+	Writes               []WriteRec
+	Fired                map[string]int
 	SplitLine, SplitCRLF int
-	Tap      *tapStats
+	Tap                  *tapStats
 }
 
 func (r *Result) ErrString() string {
